@@ -466,10 +466,21 @@ def oracle_task_ends(case, impl):
     hits = []
     deadline = None        # inactivity deadline after the previous poll (a local-FIN-or-later state), peer silent since
     transport_ok = True
+    dropped = set()
     for ev in tr.events:
         if ev["op"] == "new":
             deadline = None
             transport_ok = True
+            dropped = set()
+        if ev["op"] in ("dropw", "dropr") and ev["out"].startswith("ok"):
+            dropped.add(ev["op"])
+        # the application has let go of both halves: whatever the state, a Pending poll must leave SOME timer armed,
+        # otherwise the task can only end if the peer speaks again
+        if (ev["op"] == "poll" and "fp" in ev and transport_ok and dropped == {"dropw", "dropr"} and ev["res"].startswith("pending")
+                and all(ev["fp"].get(k, "-") == "-" for k in ("t_rtx", "t_inact", "t_ack", "t_pipe", "t_syn"))):
+            hits.append({"sig": {"oracle": "task_ends", "what": "no_timer_after_application_let_go"},
+                         "text": f"poll at t={ev['t']} ns: both stream halves are dropped, state {ev['fp'].get('st', '')}, and no timer is armed: if the peer stays silent (e.g. it advertises a zero window because its reader is gone too) the task never ends and its table entry is never released"})
+            return hits
         if ev["op"] == "tmode":
             # a poll that stops early on a blocked local transport has not reached the arming code; it is polled
             # again when the transport wakes it (local condition, not network behaviour): not judged
@@ -747,7 +758,174 @@ def oracle_zero_window_probe(case, impl):
     return hits
 
 
+def _ack_tracker():
+    """shared helper: which data numbers are outstanding given the packets the endpoint has processed"""
+    return {"pending": [], "outstanding": {}, "highest": None}
+
+
+def oracle_probe_discipline(case, impl):
+    """C14: ordinary segments never exceed the largest size proven deliverable; at most one oversized probe is
+    outstanding and it is the newest segment: while a data segment larger than the proven size (min_ss when it was
+    first sent) is unacknowledged, no newer data segment is put on the wire."""
+    tr = Trace(case, impl)
+    hits = []
+    if any(l.startswith(("vs tmode", "vs chanclose")) for l in case):
+        return []
+    pending, outstanding, highest, oversized, mss_prev = [], {}, None, None, None
+    for ev in tr.events:
+        if ev["op"] == "new":
+            pending, outstanding, oversized, mss_prev = [], {}, None, None
+            highest = (int(ev["opts"].get("our", 101)) - 1) % 65536
+        if ev["op"] == "inject" and "dgram" in ev:
+            pending.append(ev["dgram"])
+        if ev["op"] != "poll" or "dgrams" not in ev:
+            continue
+        for d in pending:
+            if d["type"] in (3, 4):
+                continue
+            if highest is not None and (_md(d["ack"], highest) > 0 or _sack_beyond(d, highest)):
+                return hits
+            for q in list(outstanding):
+                if _md(d["ack"], q) >= 0:
+                    del outstanding[q]
+            if d["sack"] is not None:
+                raw = (bytes(d["sack"]) + bytes(8))[:8]
+                for b in range(64):
+                    if raw[b // 8] >> (b % 8) & 1:
+                        outstanding.pop((d["ack"] + 2 + b) % 65536, None)
+        pending = []
+        if oversized is not None and oversized not in outstanding:
+            oversized = None
+        try:
+            mss_now = int(ev["fp"].get("ss", "min_ss=0:").split("min_ss=")[1].split(":")[0])
+        except (IndexError, ValueError):
+            continue
+        proven = mss_prev if mss_prev is not None else mss_now      # the proven size when this poll started
+        for d in ev["dgrams"]:
+            if d["type"] != 0:
+                if d["type"] == 1 and (highest is None or _md(d["seq"], highest) > 0):
+                    highest = d["seq"]
+                continue
+            if highest is None or _md(d["seq"], highest) > 0:
+                if oversized is not None and oversized in outstanding and _md(d["seq"], oversized) > 0:
+                    hits.append({"sig": {"oracle": "probe", "what": "segment_sent_past_outstanding_oversized_segment"},
+                                 "text": f"data seq {d['seq']} first sent while seq {oversized} ({outstanding[oversized]} bytes, larger than the proven segment size) is still unacknowledged: an oversized segment must be a probe, and a probe is the newest segment"})
+                    return hits
+                highest = d["seq"]
+                if d["plen"] > max(proven, mss_now):
+                    oversized = d["seq"]
+            elif d["seq"] == oversized and d["plen"] <= max(proven, mss_now):
+                oversized = None            # popped and re-segmented at a proven size
+            outstanding[d["seq"]] = d["plen"]
+        mss_prev = mss_now
+    return hits
+
+
+def oracle_reset(case, impl):
+    """C17: a RESET aborts the connection at once, with an error unless the close handshake was already answered
+    (LastAck and the RESET acknowledges our FIN)."""
+    import re
+    tr = Trace(case, impl)
+    hits = []
+    if any(l.startswith(("vs tmode", "vs chanclose")) for l in case):
+        return []
+    rst = None
+    prev_state = ""
+    n_inj = 0
+    for ev in tr.events:
+        if ev["op"] == "new":
+            n_inj = 0
+            rst, prev_state = None, ev["out"].split("fp=st=")[1].split(";seq=")[0] if "fp=st=" in ev["out"] else ""
+        if ev["op"] == "inject" and ev["out"].startswith("ok"):
+            n_inj += 1
+            if "dgram" in ev and ev["dgram"]["type"] == 3 and rst is None:
+                rst = ev["dgram"]
+        if ev["op"] != "poll" or "fp" not in ev:
+            continue
+        if rst is not None and n_inj != 1:
+            return hits          # other packets are processed in the same poll and may move the state first: not judged
+        n_inj = 0
+        if rst is not None:
+            m = re.match(r"LastAck;\{;our_fin:;(\d+)", prev_state)
+            answered = m is not None and int(m.group(1)) == rst["ack"]
+            if ev["res"].startswith("pending"):
+                if not prev_state.startswith(("SynReceived", "Closed")):
+                    hits.append({"sig": {"oracle": "reset", "what": "reset_did_not_abort"},
+                                 "text": f"a RESET was delivered in state {prev_state.split(';')[0]} but the poll that processed it returned Pending"})
+            elif ev["res"].startswith("ready:ok") and not answered and not prev_state.startswith("Closed"):
+                # a FIN processed in the same poll before the RESET may have moved the state on: only judge when the
+                # RESET was the only packet
+                hits.append({"sig": {"oracle": "reset", "what": "reset_reported_as_clean_close"},
+                             "text": f"a RESET (ack_nr {rst['ack']}) delivered in state {prev_state.replace(';', ' ')} ended the connection with Ok(()): a clean close is only right when the close handshake was already answered (LastAck and the RESET acknowledges our FIN)"})
+            return hits
+        prev_state = ev["out"].split("fp=st=")[1].split(";seq=")[0] if "fp=st=" in ev["out"] else prev_state
+    return hits
+
+
+def oracle_slow_start(case, impl):
+    """C05 (second clause): before the first loss signal the bytes outstanding never exceed two segments plus the
+    bytes the peer has acknowledged (cumulatively or selectively) so far - slow start grows the window by at most
+    what was acknowledged."""
+    tr = Trace(case, impl)
+    hits = []
+    if any(l.startswith(("vs tmode", "vs chanclose")) for l in case):
+        return []
+    pending, outstanding, highest, acked_total, mss0, ok = [], {}, None, 0, None, False
+    for ev in tr.events:
+        if ev["op"] == "new":
+            pending, outstanding, acked_total, mss0 = [], {}, 0, None
+            highest = (int(ev["opts"].get("our", 101)) - 1) % 65536
+            ok = ev["opts"]["dir"] == "out"
+        if not ok:
+            continue
+        if ev["op"] == "inject" and "dgram" in ev:
+            pending.append(ev["dgram"])
+        if ev["op"] != "poll" or "dgrams" not in ev:
+            continue
+        for d in pending:
+            if d["type"] in (3, 4):
+                continue
+            if highest is not None and (_md(d["ack"], highest) > 0 or _sack_beyond(d, highest)):
+                return hits
+            for q in list(outstanding):
+                if _md(d["ack"], q) >= 0:
+                    acked_total += outstanding.pop(q)
+            if d["sack"] is not None:
+                raw = (bytes(d["sack"]) + bytes(8))[:8]
+                for b in range(64):
+                    if raw[b // 8] >> (b % 8) & 1:
+                        acked_total += outstanding.pop((d["ack"] + 2 + b) % 65536, 0)
+        pending = []
+        fp = ev["fp"]
+        if fp.get("rec") == "recovering" or fp.get("rtor", "0") != "0" or not fp.get("st", "").startswith("Established"):
+            return hits          # first loss signal (or teardown): slow start is over
+        try:
+            mss = int(fp.get("ss", "min_ss=0:").split("min_ss=")[1].split(":")[0])
+            max_ss = int(fp.get("ss", "max_ss=0").split("max_ss=")[1].split(";")[0])
+        except (IndexError, ValueError):
+            continue
+        mss0 = mss if mss0 is None else mss0
+        sent_new = False
+        for d in ev["dgrams"]:
+            if d["type"] == 0:
+                if highest is None or _md(d["seq"], highest) > 0:
+                    highest = d["seq"]
+                    sent_new = True
+                outstanding[d["seq"]] = d["plen"]
+        if sent_new:
+            tot = sum(outstanding.values())
+            allowed = max(2 * mss, 2 * mss0 + acked_total) + max_ss       # one segment (a probe at most) of slack
+            if tot > allowed:
+                hits.append({"sig": {"oracle": "slow_start", "what": "window_grew_by_more_than_acknowledged"},
+                             "text": f"before any loss: {tot} bytes outstanding after this poll, but only 2 segments ({2 * mss0}) + {acked_total} acknowledged bytes (+ one segment of slack = {allowed}) are allowed in slow start"})
+                return hits
+    return hits
+
+
 ALL = {
+    "probe_discipline": oracle_probe_discipline,
+    "reset": oracle_reset,
+    "slow_start": oracle_slow_start,
     "zero_window_probe": oracle_zero_window_probe,
     "fin_sent": oracle_fin_sent,
     "nagle": oracle_nagle,
